@@ -32,12 +32,14 @@ type c04Op struct {
 	PLen   int         `json:"plen,omitempty"` // sum: prefix length
 	PCap   int         `json:"pcap,omitempty"` // sum: prefix capacity (>= plen)
 	Twice  bool        `json:"twice,omitempty"`
+	H      int         `json:"h,omitempty"` // which of the run's two hash values the op goes to (when Two)
 }
 
 type c04Script struct {
 	MsgSeed uint64  `json:"msg_seed"`
 	MsgLen  int     `json:"msg_len"`
 	Zero    bool    `json:"zero,omitempty"`
+	Two     bool    `json:"two,omitempty"` // two independent hash values used alternately by one consumer
 	Ops     []c04Op `json:"ops"`
 }
 
@@ -67,7 +69,7 @@ func (c04) Meta() core.Meta {
 		Components: map[string]string{"sm3.New/Write/Sum/Reset/SumSM3": "real", "io.Copy/io.CopyBuffer/io.MultiWriter": "real (stdlib consumers of Write's return value)",
 			"byte source": "stub (simulated pipe)", "oracle": "sm3ref (GB/T 32905 transcribed; anchored on A.1/A.2)"},
 		Assumptions: []string{"sm3ref is correct (anchors: GB/T 32905 A.1, A.2; the GM/T 0003.5 ZA/e values)"},
-		FaultKinds:  []string{"short-read", "stall", "eof-with-data", "peek", "double-peek", "reset-midstream", "zero-write", "prefix-spare-capacity"},
+		FaultKinds:  []string{"short-read", "stall", "eof-with-data", "peek", "double-peek", "reset-midstream", "zero-write", "prefix-spare-capacity", "two-hash-values"},
 		ProbeNames:  []string{"fill=55", "fill=56", "fill=63", "fill=0-after-data", "straddle", "len>=2blocks"},
 		StepUnit:    "hash ops + pipe reads",
 	}
@@ -106,7 +108,7 @@ func (c04) Generate(idx int, r *core.Rand, tier string) core.Script {
 	}
 	w := r.Split("workload")
 	f := r.Split("faults")
-	s := &c04Script{MsgSeed: w.Uint64(), Zero: w.Chance(1, 20)}
+	s := &c04Script{MsgSeed: w.Uint64(), Zero: w.Chance(1, 20), Two: w.Chance(1, 5)}
 	// swarm
 	enPump, enPeek, enReset, enZero := w.Chance(3, 4), w.Chance(3, 4), w.Chance(1, 2), w.Chance(1, 3)
 	nops := w.Range(1, 24)
@@ -152,6 +154,11 @@ func (c04) Generate(idx int, r *core.Rand, tier string) core.Script {
 		}
 	}
 	s.MsgLen = total
+	if s.Two {
+		for i := range s.Ops {
+			s.Ops[i].H = w.Intn(2)
+		}
+	}
 	return s
 }
 
@@ -212,7 +219,9 @@ func (c04) Execute(sc core.Script, keep bool) *core.Result {
 	var kinds, fills []string
 	opName := ""
 	body := func() {
-		h := sm3.New()
+		hs := [2]hash.Hash{sm3.New(), sm3.New()}
+		var sinces [2][]byte
+		h := hs[0]
 		checkSum := func(op c04Op, when string) bool {
 			prefix := make([]byte, op.PLen, op.PCap)
 			for i := range prefix {
@@ -235,6 +244,12 @@ func (c04) Execute(sc core.Script, keep bool) *core.Result {
 		}
 		for i, op := range s.Ops {
 			opName = op.Kind
+			cur := 0
+			if s.Two {
+				cur = op.H & 1
+				res.Faults["two-hash-values"]++
+			}
+			h, since = hs[cur], sinces[cur]
 			switch op.Kind {
 			case "write":
 				b := take(op.N)
@@ -347,6 +362,7 @@ func (c04) Execute(sc core.Script, keep bool) *core.Result {
 				since = since[:0]
 				log.Add("reset")
 			}
+			sinces[cur] = since
 			switch len(since) % 64 {
 			case 55:
 				res.Probes["fill=55"]++
@@ -365,6 +381,13 @@ func (c04) Execute(sc core.Script, keep bool) *core.Result {
 		}
 		// end of run: final digest, then once more, then the one-shot function
 		opName = "final"
+		if s.Two {
+			h, since = hs[1], sinces[1]
+			if !checkSum(c04Op{}, "final-other") {
+				return
+			}
+		}
+		h, since = hs[0], sinces[0]
 		if !checkSum(c04Op{}, "final") || !checkSum(c04Op{}, "final-repeat") {
 			return
 		}
@@ -469,6 +492,11 @@ func (c04) Shrinks(sc core.Script) []core.Script {
 	if !s.Zero {
 		c := cp()
 		c.Zero = true
+		out = append(out, c)
+	}
+	if s.Two {
+		c := cp()
+		c.Two = false
 		out = append(out, c)
 	}
 	return out
